@@ -152,7 +152,7 @@ def handleUrl (kind target : String) (out : List String) : String :=
   | none => "BAD u input"
   | some raw =>
     -- http.ReadRequest cuts the request line at spaces before url.ParseRequestURI sees the target
-    let dom := if kind = "req" ∧ raw.contains 32 then some none else parseRequestURI raw
+    let dom := if (kind = "req" ∨ kind = "srv") ∧ raw.contains 32 then some none else parseRequestURI raw
     match dom with
     | none => "OK b=u-unmodelled"
     | some m =>
@@ -169,7 +169,16 @@ def handleUrl (kind target : String) (out : List String) : String :=
       else match m with
         | none => "OK b=u-error"
         | some u =>
-          let form := match raw with | 47 :: _ => "origin" | _ => "absolute"
+          let form := match raw with
+            | 47 :: _ => "origin"
+            | _ =>
+              -- an authority outside the old easy class (userinfo, [v6], escapes, ...)?
+              match getScheme true [] raw with
+              | some (some (_, rest)) =>
+                (match beforeQuery rest with
+                 | 47 :: 47 :: a => if simpleAuth (a.takeWhile (· != 47)) then "absolute" else "absolute-auth"
+                 | _ => "absolute")
+              | _ => "absolute"
           if u.rawPath = [] then s!"OK nt b=u-{form}-path-only" else s!"OK nt b=u-{form}-rawpath"
 
 /-! ### r — routing through the real PatternRouter -/
@@ -304,7 +313,7 @@ def handleRoute (table method kind x : String) (out : List String) : String :=
       | some (modelT, specT, _) =>
         -- the URL as the model sees it
         let url? : Option (Option Url) :=
-          if kind = "req" then (if xb.contains 32 then some none else parseRequestURI xb)
+          if kind = "req" ∨ kind = "srv" then (if xb.contains 32 then some none else parseRequestURI xb)
           else if kind = "raw" then some (some ⟨[], xb⟩)
           else if kind = "path" then some (some ⟨xb, []⟩)
           else none
@@ -321,6 +330,7 @@ def handleRoute (table method kind x : String) (out : List String) : String :=
           -- the path the request carries: for `req` the target's path text, otherwise the chosen path
           let reqPath := match kind, xb with
             | "req", 47 :: _ => beforeQuery xb
+            | "srv", 47 :: _ => beforeQuery xb
             | _, _ => pathChoice u
           let parseOk := (specEntries modelT).map (fun e => (e.1, e.2.2)) == entries.map (fun e => (e.1, e.2.2))
           match (if allWf then specJudge entries meth reqPath res else none) with
